@@ -53,6 +53,9 @@ fn consume_line<R>(reader: &mut R) -> io::Result<usize>
 where
     R: BufRead,
 {
+    #[cfg(kani)]
+    use self::verif_kani::memchr_model as memchr;
+    #[cfg(not(kani))]
     use memchr::memchr;
 
     let mut is_eol = false;
@@ -104,6 +107,10 @@ where
         )),
     }
 }
+
+#[cfg(kani)]
+#[path = "/verif/harness/fastq/reader_record.rs"]
+mod verif_kani;
 
 #[cfg(test)]
 mod tests {
